@@ -195,8 +195,9 @@ class MinimizerIMinuit(MinimizerBase):
             self._load_state()
             self._par_cov_mat = _mat
             if _mat is not None:
-                # the parameter errors cached before HESSE are MIGRAD's estimates: read them again
-                self._par_err = None
+                # the parameter errors are the ones of this covariance matrix (for a limited parameter MINUIT's own error
+                # estimate differs from it through the nonlinear internal-to-external transformation)
+                self._par_err = np.sqrt(np.diag(_mat))
         return None if self._par_cov_mat is None else self._par_cov_mat.copy()
 
     @property
